@@ -155,6 +155,11 @@ func (x *Exec) isPureExternal(f *ssa.Function) bool {
 	if f.Pkg == nil {
 		return false
 	}
+	switch f.String() {
+	case "(*net/http.Request).Cookie", "(*net/http.Request).Cookies", "(*net/http.Request).Context", "(net/http.Header).Get", "(net/http.Header).Values":
+		x.e.note("pure external function " + f.String() + ": result unconstrained")
+		return true
+	}
 	switch f.Pkg.Pkg.Path() {
 	case "strings", "strconv", "fmt", "errors", "net/url", "unicode", "unicode/utf8", "math", "sort", "bytes", "net", "encoding/base64", "encoding/hex", "time", "net/textproto", "hash/fnv", "github.com/segmentio/fasthash/fnv1a", "path":
 		x.e.note("pure external function " + f.String() + ": result unconstrained")
